@@ -8,6 +8,7 @@ PID = 'C03'
 TARGETS = ['Properties/C03.vo', 'Bridge/IntBridge.vo', 'Bridge/DataBridge.vo', 'Bridge/CodegenBridge.vo', 'Bridge/PlumbingBridge.vo', 'Bridge/FragBridge.vo']
 KERNELS = ['G1_frag', 'G6_int', 'G8_data', 'G11_codegen', 'G17_builder']
 PROP_FILE = 'Properties/C03.v'
+WHOLE_PACKET = True      # Tie A over all of the pack / unpack machinery (check.py: WHOLE_PACKET_KERNELS)
 
 
 def lens_bad(table, v):
